@@ -200,7 +200,16 @@ def not_equal_non_url():
     return ok
 
 
+def copy_probe(s):
+    u = URL(s)
+    for v in (copy.copy(u), copy.deepcopy(u), pickle.loads(pickle.dumps(u, 2)), pickle.loads(pickle.dumps(u, 5))):
+        if not (v == u and hash(v) == hash(u) and str(v) == str(u) and v.raw_path == u.raw_path and v.query == u.query):
+            return False
+    return True
+
+
 def register(fn):
+    fn(copy_probe)
     fn(not_equal_non_url)
     fn(observe)
     fn(compare)
